@@ -139,6 +139,9 @@ CallsOf(st, op) ==
     [] op \in {"enable_deferred", "enable_fast", "enable_vbu", "enable_ebu", "enable_fbu"} ->
           {KF(op, TRUE), KF(op, FALSE)}
     [] op = "clear" -> {KF(op, TRUE), KF(op, FALSE)}
+    [] op = "enable_bu" -> {KF(op, TRUE), KF(op, FALSE)}
+    [] op = "reorder" -> {KA(op, e) : e \in LiveE(st)}
+    [] op = "reserve" -> {K(op, k, 7, <<>>, FALSE) : k \in 0 .. 3}
     [] op = "more_props" -> {K0(op)}      \* the executor creates a further family of properties (C03: mid-history)
     [] op = "status_gc" ->   \* marks: every single entity, plus some pairs; manifold flag; track all / none
           LET one(k, h) == IF k = "V" THEN <<1, h, 0, 0, 0>> ELSE IF k = "E" THEN <<0, 1, h, 0, 0>>
